@@ -202,6 +202,12 @@ def decide(path, t):
         if a is False and b is False:
             return False
         return None
+    if t.bits == 1 and t.op in ("ult", "ule", "slt", "sle"):
+        # the branch may have been taken on the complementary comparison
+        n = tm.unop("not", t)
+        f = facts.get(n)
+        if f is not None:
+            return not bool(f.val)
     return None
 
 
